@@ -17,7 +17,7 @@ PROPS = {
         design_ref="DESIGN.md section 5, C08",
         rule=("suite 80: complete in-order Block2 transfers: the generator plays the client against the implementation (requests recorded, then replayed on implementation and model): every body length 0..3*sz+1 for block sizes 16, 32, 64 (thorough: all of 16..1024) at the budget that picks that size, "
               "boundary lengths for the larger sizes, the same with early negotiation (Block2 in the first request), bodies of 5000 and 20000 bytes, two consecutive transfers on one key, 200 (thorough 2000) transfers abandoned midway followed by a new transfer without Block2, and 500 (thorough 20000) random transfers over body lengths, budgets 60..1280, client preference none / szx 0..6, mid-transfer size reduction, token length 0..8, seven application option sets (incl. repeatable options with byte-identical values, empty values, option numbers on both sides of Block2 and above 268; the budget is raised to the option set's overhead + 28 so that every case stays inside the property's domain); "
-              "verdict from the responses alone: a response never carries more payload than the size the request named, payloads concatenate to the body, non-final blocks are full with the more flag, numbers match offsets, every block repeats the application's options, the application ran exactly once, follow-ups were answered by the handler, the cache entry is gone after the final block; class 1 empty body / 2 unfragmented / 3 fragmented / 4 fragmented with early negotiation; distinct = distinct input"),
+              "verdict from the responses alone: a response never carries more payload than the size the request named, payloads concatenate to the body, non-final blocks are full with the more flag, numbers match offsets, every block repeats the application's options, the application ran exactly once, follow-ups were answered by the handler, the cache entry is gone after the final block; class 1 empty body / 2 unfragmented / 3 fragmented / 4 fragmented with early negotiation; distinct = distinct input Also: first requests that end an upload (single final Block1 block) and negotiate Block2 early; FETCH transfers whose follow-ups repeat the request body; tokens that change length between the requests of a transfer; a fifth of the cases driven by a server loop that passes every response through intercept_response (mode 3)."),
         level_text=("Theorems: C08_block_served (for every body incl. the empty one, block number and size: the served payload is bytes [num*size, num*size+size) of the cached body, the more flag is set iff bytes remain, on a copy of the application's version/type/code/options), "
                     "C08_chunks_reassemble / _from (for every body and block size the chunks taken in order concatenate to the body: induction on the remaining length), C08_followup_from_cache (a follow-up block is answered from the cache without consulting the application and the entry is released exactly when the served block is the last), "
                     "C08_followups_served (a whole run of follow-ups k, k+1, ... up to the one covering the end of the body, any number of them: all answered from the cache, payloads exactly the chunks of the body from offset k*size, entry released afterwards -- with C08_chunks_reassemble the client's concatenation is the body), C08_renegotiated_followups_served (the same when every follow-up names its own size, numbers agreeing with the running offset), C08_first_fragment, C08_whole_transfer (first exchange + follow-ups end to end: the concatenation is the body the application produced, the application is consulted once, the entry is released) and C08_served_within_size (no served block exceeds the size its request names)."),
@@ -29,7 +29,7 @@ PROPS = {
         design_ref="DESIGN.md section 5, C09",
         rule=("suite 90: uploads of bodies 0..5000 bytes (every length 0..49 at 16-byte blocks, lengths around block multiples for szx 0..6) with blocks in order, one block repeated 1..3 times, optionally after an abandoned prefix (1..6 blocks) of another body at the same or another block size to the same resource; "
               "the final block delivered twice (known finding D11); methods POST, PUT, FETCH, PATCH, iPATCH in rotation; 300 (thorough 3000) requests larger than the budget without Block1, and 200 (thorough 2000) of them after an abandoned upload or an earlier refusal on the same resource with shorter options; verdict: every non-final block answered 2.31 with Block1 echoing the offset and a size <= the client's, application not reached; final block reaches the application exactly once with exactly the body; 4.13 with a power-of-two size hint; "
-              "class 1 plain / 2 after an abandoned upload / 3 too large; distinct = distinct input"),
+              "class 1 plain / 2 after an abandoned upload / 3 too large; distinct = distinct input Also: abandoned and new upload with different Content-Format (or none); a quarter of the cases in mode 3 (every response, also 2.31, passed through intercept_response)."),
         level_text=("Theorems: C09_splice_extends_prefix (whatever the buffer holds beyond it: once the buffer agrees with the body up to a block's offset, splicing the block in extends the agreement -- so in-order delivery with repeats reconstructs the prefix), C09_final_block_body (the body handed over at the final block is exactly the body sent), "
                     "C09_block_answer (2.31 Continue + negotiated Block1 without reaching the application for non-final blocks; hand-over with Block1 on the response for the final one), C09_too_large (4.13 with Block1 num 0, more set), C09_upload_delivers_body (the buffer handling over a whole in-order upload at any block size, on top of ANY stale buffer, yields exactly the body) and "
                     "C09_ack_echoes (inside the domain -- the budget admits the client's block size -- the acknowledgement echoes the client's own number and size), C09_upload_with_repeats (every non-final block delivered any number of times in a row) and C09_upload_run (the same on handle_block1 itself with its size negotiation and response building: a run of in-order block requests from block 0 either reports one of the documented errors or answers every block but the last with Continue and hands over a request whose payload is exactly the body, buffer released). Known finding KF_dup_final (C09_KF_dup_final_refuted)."),
@@ -40,7 +40,7 @@ PROPS = {
         suites=[100],
         design_ref="DESIGN.md section 5, C10",
         rule=("suite 100: 2500 (thorough 60000) first exchanges and short transfers with the budget aimed at bands around overhead + 12 + 2^k, overhead + 28 .. +35, 1277..1280 and random values; overhead varied through token length 0..8, path length 0..100, Uri-Query options and four application option sets; client szx 0..7 or none; uploads with szx 0..6; 400 (thorough 6000) uploads whose final block also names a Block2 size for a large reply; 400 (thorough 6000) single-block uploads at size exponents 2..7; "
-              "verdict: inside the property's domain (overhead + 28 <= M <= 1280, no Block2 set by the application) every handler-produced message encodes within M, every chosen size is a power of two in 16..1024, not above the client's, exactly the client's when the message overhead + that size + 32 fits the budget, and an acknowledged upload size + request overhead + 12 is within the budget; outside only 'no panic'; class 1 in / 2 outside the domain; distinct = distinct input"),
+              "verdict: inside the property's domain (overhead + 28 <= M <= 1280, no Block2 set by the application) every handler-produced message encodes within M, every chosen size is a power of two in 16..1024, not above the client's, exactly the client's when the message overhead + that size + 32 fits the budget, and an acknowledged upload size + request overhead + 12 is within the budget; outside only 'no panic'; class 1 in / 2 outside the domain; distinct = distinct input Also: error-class (4.xx / 5.xx) and 2.31 application replies."),
         level_text=("Theorem C10_chosen_size: for every budget with overhead + 28 <= M <= 1280, whenever negotiate returns a block it has size 2^(k+4), k <= 6, at most M - overhead - 12 (room for the block plus the 12-byte block-option allowance), never above the client's size, and exactly the client's when that fits with 32 bytes to spare. C10_overhead_measured (the size the handler measures is the RFC wire length), C10_insertion (inserting one option with number <= 268 and a value of <= 12 bytes into any ascending option sequence "
                     "lengthens the wire image by at most 2 + its length: the successor's delta only shrinks), C10_fragment_fits (for every well-formed application response without Block2 and every budget in the domain, the first fragment the handler builds -- options + Block2 + marker + chunk -- has wire length <= M and payload <= the chosen size)."),
         level_note=COMMON_BLOCK_NOTE + " C10_fragment_fits is proved for the first fragment of a response (intercept_response); follow-up fragments from the cache and Block1 answers are decided by the suite's length oracle on every produced message.",
@@ -51,7 +51,7 @@ PROPS = {
         design_ref="DESIGN.md section 5, C11",
         rule=("suite 110: 2500 (thorough 150000) random sequences of 1..6 requests over 4 cache keys: option bloat up to 1400 bytes (below, at and above the budget and above 1280), Block1/Block2 values with num in {0,1,2,100,4095,4096,65535}, szx 0..7, malformed block option bytes of length 0..4, payloads 0..1200, all four message types, "
               "budgets {0..64, 1152, 0..5000, 0,12,16,17,28,29,1280,1281}, application replies with bodies 0..10000, large options, pre-set Block2; directed: the 16 KiB jump boundary (16383..32768) followed by a completing block, budgets overhead..overhead+39 with and without Block1; "
-              "verdict: no panic, errors carry a code >= 4.00 or there is no response, the buffer and the body handed on never grow by more than 16 KiB + the request's payload; class by budget range; distinct = distinct input"),
+              "verdict: no panic, errors carry a code >= 4.00 or there is no response, the buffer and the body handed on never grow by more than 16 KiB + the request's payload; class by budget range; distinct = distinct input Also: requests whose code is no method (0.00 with a payload, response and reserved codes)."),
         level_text=("Theorems for every request with ordered option maps, every budget (0 upward), cached state and application reply: C11_request_no_panic, C11_response_no_panic (the entry points return Ok or Err, never Panic: the size measurement cannot fail fatally, no division by zero, every block value encodes), "
                     "C11_block1_errors / C11_serve_errors (errors are 4.00/5.00-coded, or 'not handled' exactly when there is no response), C11_growth (buffer and delivered body bounded by previous length + 16384 + payload), C11_rejects_jump (a larger jump is an error and leaves the buffer unchanged)."),
         level_note=COMMON_BLOCK_NOTE + " The model computes offsets on unbounded N; C11_offsets_bounded proves that every offset computed from a decoded block option is at most 2^27 (num <= 65535, size <= 2048), so no wrap-around can occur on a target with at least 32-bit usize.",
@@ -61,7 +61,7 @@ PROPS = {
         suites=[120],
         design_ref="DESIGN.md section 5, C12",
         rule=("suite 120: 7 sets of 2-3 transfers whose keys differ in exactly one of endpoint / method / path (segments [a,b] vs [a/b], prefix paths, empty path, trailing empty segment), uploads and downloads mixed, 3-5 exchanges each; all interleavings enumerated (quick: a stride of up to 60 per set and round; thorough: up to 4000); "
-              "the implementation is run interleaved and each transfer alone; verdict: per-transfer observation lists are equal (responses, results, cached state), and every response carries the message id and token of its request; class = number of transfers; distinct = distinct input"),
+              "the implementation is run interleaved and each transfer alone; verdict: per-transfer observation lists are equal (responses, results, cached state), and every response carries the message id and token of its request; class = number of transfers; distinct = distinct input Also: tokens changing length inside a transfer (the reply's token-length nibble is part of 'correlated'); pairs of ordinary path names that collide under 32-bit FNV-1a."),
         level_text=("Theorems: C12_key_injective / C12_key_path (the cache key separates exactly method, path segment list and requester), C12_intercept_request_is_access / C12_intercept_response_is_access (the entry points are accesses of a per-key machine over the expiring map), "
                     "C12_noninterference (for EVERY interleaving of any number of transfers of any length, with non-decreasing times: what key k's transfers observe equals what they observe alone -- induction over the event list with the frame lemma of the expiring map), C12_correlation (blocks served from the cache keep the message id and token prepared for the current request)."),
         level_note=COMMON_BLOCK_NOTE + " Methods outside 0.01-0.07 share one key byte and non-UTF-8 paths collapse to the empty path (documented by C12_key_injective's statement through get_method / get_path_as_vec).",
@@ -71,7 +71,7 @@ PROPS = {
         suites=[200],
         design_ref="DESIGN.md section 5, C20",
         rule=("suite 200: retention: expiry of one hour, a Block2 transfer or an upload started, then 1, 7, 150 (thorough up to 2000) requests for other keys, then the follow-up: it must be served from the cache / continue on its buffer; expiry: duration 40 ms, 1 or 12 (thorough up to 50) abandoned uploads plus a started transfer, an idle wait of 200 ms, then the follow-up: "
-              "it must reach the application / start from an empty buffer, and only the new entry may remain in the cache (live-clone count of the endpoint type); also after the wait a plain request without block options on a new key (ordinary traffic must reclaim expired state too); under the short duration only the exchange after the wait is observed, so scheduling delays cannot raise an alarm; per-key expiry under traffic: duration 300 ms, the judged key left idle across four naps of 100 ms while two other keys send Block1 blocks (or plain requests) after every nap, then the follow-up, which must be handled as fresh (only that exchange is observed, without the entry count, so a nap that takes longer cannot raise an alarm); class 1 retention / 2 expiry / 3 per-key expiry under traffic; distinct = distinct input"),
+              "it must reach the application / start from an empty buffer, and only the new entry may remain in the cache (live-clone count of the endpoint type); also after the wait a plain request without block options on a new key (ordinary traffic must reclaim expired state too); under the short duration only the exchange after the wait is observed, so scheduling delays cannot raise an alarm; per-key expiry under traffic: duration 300 ms, the judged key left idle across four naps of 100 ms while two other keys send Block1 blocks (or plain requests) after every nap, then the follow-up, which must be handled as fresh (only that exchange is observed, without the entry count, so a nap that takes longer cannot raise an alarm); class 1 retention / 2 expiry / 3 per-key expiry under traffic; distinct = distinct input Also: the same endpoint and path with another method in between (answered 2.01 / 2.02 / 2.04 / 2.05, or itself a Block1 block 0)."),
         level_text=("Theorems on the expiring-map model with time as a parameter: C20_state_handed (a use of key k is handed the stored state while not expired and the default state afterwards), C20_retained_across_other_keys (any number of uses of other keys never changes what k will see), "
                     "C20_retained_until_expiry (exact boundary: seen up to and including last use + ttl, never after), C20_reclaimed (after any use every entry physically present has t + ttl >= now) with C20_time_order_invariant and C20_keys_unique as the invariants it needs."),
         level_note=COMMON_BLOCK_NOTE + " The real clock (Instant monotonicity, sleep granularity) and lru_time_cache's internal consistency between its map and its list are assumed; the model merges them into one time-ordered list.",
@@ -82,7 +82,7 @@ PROPS = {
         design_ref="DESIGN.md section 5, C16",
         rule=("suite 160: documents -> LinkFormatWrite into a String -> LinkFormatParser / LinkAttributeParser / Unquote (to_string and to_cow); values exhaustively up to length 3 (thorough 4) over the 11-symbol alphabet {< > ; , quote backslash = space a two-byte-char newline} "
               "through attr() and attr_quoted(), each in a two-link document with an integer attribute, newline option on and off; random documents of 0..4 links x 0..4 attributes with targets/keys/values over structural characters, 3- and 4-byte code points, Unicode white space, values to length 40, "
-              "attr_u32 / attr_u16 at boundaries; verdict: parsed targets, keys and unquoted values (both unquoting paths) equal the document given; class by document shape; non-trivial = document in the property's domain (target without '>', key free of separators); distinct = distinct input"),
+              "attr_u32 / attr_u16 at boundaries; verdict: parsed targets, keys and unquoted values (both unquoting paths) equal the document given; class by document shape; non-trivial = document in the property's domain (target without '>', key free of separators); distinct = distinct input Also: registered attribute names (rel, rt, if, anchor, title) repeated within a link; values with '=', CR LF + blank, every Unicode White_Space code point and its neighbours."),
         level_text=("Theorem C16_roundtrip: for every document in the domain, of any size, with or without newlines, parse_content (what the writer sends to a fault-free sink) = the links, keys and original value texts, in order -- proved by induction over links and attributes from scanner lemmas "
                     "(a quoted, escaped value is walked over by both scanners whatever it contains; separators only occur outside quotes; trimming removes exactly the separators; the unquoting iterator inverts the escaping). C16_attr_auto_wf: attr() always picks a form the theorem covers. C16_integer_text / C16_integer_in_domain: the decimal text attr_u32 / attr_u16 write for every integer below 10^40 is a non-empty digit string without a leading zero that denotes the integer, and is inside the round-trip domain."),
         level_note=("Hand-written models of the writer and the three parsing iterators tied to the Rust by differential execution (dev and release; dev also exercises the writer's debug_assert on keys). core::fmt's one-write_str-per-write behaviour is an assumption checked by the fault-free runs of suite 180."),
@@ -93,7 +93,7 @@ PROPS = {
         design_ref="DESIGN.md section 5, C17",
         rule=("suite 170: arbitrary strings -> all three iterators driven to the end, every slice with its offset (pointer difference against the input; LinkAttributeParser's remaining string through the cfg(coap_lite_verif) hook), Unquote::to_string and Unquote::to_cow (panic captured) for every value; "
               "all strings of length <= 5 (thorough 7) over the property's 10-symbol alphabet, 30000 (thorough 500000) random strings to length 24 over a wider alphabet incl. 4-byte code points and Unicode white space, every prefix of 300 (thorough 5000) well-formed documents; "
-              "verdict on the observed items alone: every slice is the input's content at its offset, slices are ordered and disjoint, an error is the last item, to_cow = to_string, no panic; class 1 without / 2 with a quote character; distinct = distinct input"),
+              "verdict on the observed items alone: every slice is the input's content at its offset, slices are ordered and disjoint, an error is the last item, to_cow = to_string, no panic; class 1 without / 2 with a quote character; distinct = distinct input Also: values with CR LF followed by a blank or tab inside quotes; every Unicode White_Space code point and its neighbours."),
         level_text=("Theorems for every string: C17_link_progress / C17_attr_progress (each yielded item strictly shortens the remaining input: termination), C17_link_substrings / C17_attr_substrings (s = x ++ link ++ y ++ attrs ++ z ++ rest with exactly the reported offsets: substrings, left to right, disjoint), "
                     "C17_error_is_last (after an error nothing is yielded), C17_cow_eq (to_cow v = Ok (to_string v) for every value, including unterminated quoted strings and text after the closing quote; in particular it never panics)."),
         level_note=("Hand-written model tied to the Rust by differential execution with panic capture (dev and release). The scanners are total structural recursions in the model; byte-level slicing (char boundaries) exists only in the Rust and is covered by comparing every slice and offset on ~1.5*10^5 strings per build."),
@@ -103,7 +103,7 @@ PROPS = {
         suites=[180],
         design_ref="DESIGN.md section 5, C18",
         rule=("suite 180: for each of 250 (thorough 3000) random documents x newline option on/off: EVERY write-call index k from 0 to the fault-free call count x {only call k fails, call k and all later fail}, enumerated completely per document, through a fault-injecting fmt::Write sink; "
-              "compared: final result, number of calls, the chunks the sink accepted (the fault-free run is itself compared with the model's chunk list: one write_str per write); class 1 fail-once / 2 fail-persistently / 3 fault-free; distinct = distinct input"),
+              "compared: final result, number of calls, the chunks the sink accepted (the fault-free run is itself compared with the model's chunk list: one write_str per write); class 1 fail-once / 2 fail-persistently / 3 fault-free; distinct = distinct input Also: three caller styles per fault position (every link closed with finish(); per-link writers dropped; set_add_newlines repeated before every link and before the final finish())."),
         level_text=("Theorem C18_fault: for every document, newline option and every fault schedule (an arbitrary function of the call index: once, persistently, intermittently), if call k is the first to fail the writer's result is an error, exactly k+1 calls were issued and the sink holds exactly the first k chunks of the fault-free output; "
                     "if no call fails the result is success and the output complete (C18_no_fault). By induction over the document with the invariant 'error set => no further call'."),
         level_note="Hand-written model of the writer's guarded writes tied to the Rust by complete per-document fault enumeration (dev and release).",
@@ -115,7 +115,7 @@ PROPS = {
         rule=("suite 140: operation histories on a Subject, compared on FULL state after every operation (endpoint, token, order, sequence, and -- through the cfg(coap_lite_verif) read-only hooks -- unacknowledged count and pending id): "
               "all sequences of depth 3 (thorough 4) over the alphabet 2 endpoints x 2 tokens x 2 paths (a, a/b) x 2 ids x {CON,NON} x limits {0,1,2} (39 operations), all continuations of depth 2 (thorough 3) after 12 (thorough 60) random prefixes of length 2..6, "
               "300 (thorough 3000) random histories of length 200 over up to 5 endpoints and 4 paths, directed long histories (limit, limit+1, limit+2, 600 rounds) at limits 0, 1, 10, 254, 255 with and without acknowledgements, and the end of the sequence range (hook); "
-              "verdict = equality with an independently structured relational reference registry (Suite14.rstep) at every step; class 1 no round / 2 rounds / 3 rounds and acks; distinct = distinct input"),
+              "verdict = equality with an independently structured relational reference registry (Suite14.rstep) at every step; class 1 no round / 2 rounds / 3 rounds and acks; distinct = distinct input Also: keys with a leading empty segment next to their slash-less twins (t, /t, t/, //t); an endpoint type whose Display is not injective (1 and 257 print alike); acknowledgements that carry an arbitrary Uri-Path."),
         level_text=("Theorems over all histories (induction on the operation list): C14_invariant (every reachable state lists each endpoint at most once per resource), C14_register with C14_register_known_endpoint / C14_register_new_endpoint "
                     "(re-registration replaces in place: same position, new token, counters cleared; a new endpoint is appended last; other resources untouched), C14_deregister with C14_deregister_exact (given the invariant, exactly the observer whose endpoint and token both match is removed), "
                     "C14_changed_unobserved (a round on an unobserved path is the identity), C14_model_refines_reference (a refinement proof: on every history inside the domain the states the model prints after each operation are exactly those of the relational reference the oracle uses -- "
@@ -127,7 +127,7 @@ PROPS = {
         suites=[140, 150],
         design_ref="DESIGN.md section 5, C15",
         rule=("suite 140 as for C14 (the directed long histories at limits 10, 254, 255 and the exhaustive small-alphabet histories at limits 0, 1, 2 decide the counting clauses); suite 150: create_notification over token length 0..8 x 14 boundary sequences (0, 255, 256, 65535, 65536, 2^24-1, 2^24, 2^32-1, ...) x both types x 9 message ids, plus random, "
-              "each also encoded and decoded back to the same sequence; class by suite; distinct = distinct input"),
+              "each also encoded and decoded back to the same sequence; class by suite; distinct = distinct input Also: keys with a leading empty segment, endpoints that print alike, acknowledgements carrying a path (as for C14)."),
         level_text=("Theorems: C15_round (a round on an observed resource adds exactly one to the sequence, stamps every observer with the message id, counts only confirmable rounds, and keeps exactly the observers whose count is <= the limit), "
                     "C15_ack / C15_ack_exact (only the observer with the acknowledging endpoint, only when its pending id matches, is reset), C15_count_bounded and C15_no_counter_overflow (for every history with limits 0..255, of any length, the counter stays <= 255 between rounds, "
                     "its increment never overflows, and the only reachable panic is site 40), C15_notification (create_notification is exactly version 1, CON/NON, 2.05, the given id, token, payload and Observe = minimal uint of the sequence). "
@@ -143,7 +143,7 @@ PROPS = {
         design_ref="DESIGN.md section 5, C19",
         rule=("suite 190: kinds 0-3 set/get_method and set/get_status for all 8 / 28 named values and on raw states with every one of the 256 code bytes plus the UnKnown and Reserved(named byte) forms; kind 4 set_path with every string of length <= 5 (thorough 6) over {'/', 'a', '.', two-byte char} "
               "on fresh and random packets plus random strings incl. 3- and 4-byte code points; kind 5 get_path / get_path_as_vec on raw Uri-Path values incl. invalid UTF-8; kinds 6-7 observe flag set and raw Observe bytes of length 0..6; kind 8 set_content_format for all 60 formats on random states "
-              "(set twice, set after raw add); kinds 9-11 set_from_message and the readable view through coap-message 0.2 and 0.3 on random messages; verdict computed on the raw state only; class = kind; non-trivial = in domain; distinct = distinct input"),
+              "(set twice, set after raw add); kinds 9-11 set_from_message and the readable view through coap-message 0.2 and 0.3 on random messages; verdict computed on the raw state only; class = kind; non-trivial = in domain; distinct = distinct input Also: '%', hex digits, '+', '&', '=' in paths; (for kinds 9/10 destinations that already hold options above and below the source's)."),
         level_text=("Theorems for all packet states: C19_method / C19_status (getter after setter returns the value for all 8 / 28 variants, nothing else changes), C19_method_of_code / C19_status_of_code (what the getters read for each of the 256 code bytes), "
                     "C19_path (raw Uri-Path values = segments, get_path = the string minus one leading slash, get_path_as_vec = the segments, other options untouched) with the inductive lemma C19_path_join, C19_observe_flag / C19_observe_flag_raw, "
                     "C19_content_format (set_content_format then get_content_format returns the format whatever was there before; raw option 12 = [minimal uint]), C19_copy (set_from_message into a fresh packet preserves code byte, flattened options in ascending order, payload), C19_valid_string_segments / C19_path_valid_string (every valid UTF-8 string has valid segments -- byte 47 never occurs inside a multi-byte sequence --, so the path round trip holds for EVERY valid string), C19_model_passes_oracle_* for every kind of suite 190 (method / status, set_path, path getters, observe flag set / get, content format, set_from_message of coap-message 0.2 and 0.3 into any destination, the read views): the model satisfies the oracle on every input."),
@@ -156,7 +156,7 @@ PROPS = {
         design_ref="DESIGN.md section 5, C13",
         rule=("suite 130: kind 0 encode+decode+size over num 0..65535 x more x szx 0..7 (thorough: all 1048576 triples; quick: all triples for szx 0 and 7, num < 300, powers of two and their predecessors, every 17th num otherwise), "
               "kind 1 decode over all byte strings of length <= 2, a 13x13x52 (thorough: complete) grid of length 3 and random strings of length 4..5, kind 2 BlockValue::new over num in {0..4097 strided, 4095..4097, 65535..65537, 2^32, usize::MAX} x sizes 0..8200 and 2^k-1, 2^k, 2^k+1 up to usize::MAX; "
-              "verdict from the RFC 7959 formula only; class = kind; non-trivial = in range; distinct = distinct input"),
+              "verdict from the RFC 7959 formula only; class = kind; non-trivial = in range; distinct = distinct input Also: numbers k*2^28+r and sizes k*2^32+r (small again after a narrowing cast or a shift that loses high bits)."),
         level_text=("Theorems for all values: C13_roundtrip (every num < 65536, more, szx < 8: the encoding is the minimal uint NUM<<4|M<<3|SZX, decoding it returns the triple, size = 2^(szx+4)), C13_decode_total (every byte string: error iff longer than 3 bytes or NUM > 65535, "
                     "otherwise the fields of its big-endian value), C13_new (every usize num and size: error iff size = 0, size >= 4096 or num >= 65536, otherwise exponent log2(size)-4 saturated at 0, with the 0..63 search loop proved equal to log2), C13_new_size (largest power of two not above the size, at least 16), C13_model_passes_oracle (the model satisfies the suite's independent RFC 7959 2.2 specification spec130 on EVERY input, all three entry points)."),
         level_note="Hand-written model of block_value.rs tied to the Rust by differential execution (dev and release), close to exhaustive in the thorough tier.",
@@ -167,7 +167,7 @@ PROPS = {
         design_ref="DESIGN.md section 5, C06",
         rule=("suite 60: kind 0 encode (exhaustive u8 and u16, every 2^k and its neighbours for u32/u64, random), kind 1 decode (all byte strings of length <= 2 -- thorough <= 3 -- per width, strings of length 0..10 with 0..l leading zeros), "
               "kind 2 text (valid strings, overlong / surrogate / > U+10FFFF / truncated sequences with prefixes and suffixes, all 1- and many 2..4-byte sequences, mutated random strings), kinds 3-6 typed accessors on random packet states "
-              "(add_option_as / set_options_as per width and for strings, set_observe_value, get_observe_value and get_content_format on raw states); verdict computed from be_min / be_value only; non-trivial = in the accessor's domain; class = kind; distinct = distinct input"),
+              "(add_option_as / set_options_as per width and for strings, set_observe_value, get_observe_value and get_content_format on raw states); verdict computed from be_min / be_value only; non-trivial = in the accessor's domain; class = kind; distinct = distinct input Also: uint strings of 65535..131073 bytes per width; valid strings around U+FFFD / U+FFFC / U+FFFE / U+FEFF."),
         level_text=("Theorems for every value and width, no bound: C06_encode_minimal (the drain loop with its assert yields be_min v for v < 256^w), C06_min_value / C06_min_no_leading_zero / C06_min_length (be_min is the shortest big-endian form; zero is empty), "
                     "C06_decode (any string up to the width decodes to its big-endian value, longer ones are rejected; the 64-bit shift-and-add loses nothing and the final cast is exact), C06_roundtrip, C06_add_option_as and C06_observe_value "
                     "(typed setters store exactly these encodings and touch nothing else; typed getters read them back). By induction on the value / the byte string. C06_model_passes_oracle: the model satisfies the suite-60 oracle on EVERY input (codec, lists of typed values added to / set on any raw packet state, set_observe_value, set_content_format, the typed getters)."),
@@ -197,7 +197,7 @@ PROPS = {
               "to_bytes_unlimited bytes, from_bytes of those bytes; enumerated: 14 first option numbers x 9 value lengths, number x gap pairs in both call orders "
               "(gaps 0,1,12,13,14,255..257,268..270,1000,65000), value lengths up to 65804, the 4x4x9x8 version/type/token-length/code grid, all 120 orders of a "
               "five-setter script, strided (thorough: every) 16-bit first option number, plus random call sequences over colliding keys with clears and re-adds; "
-              "non-trivial = well-formed call sequence (ops_wf); class by the widest option field: 1 no options / 2 short / 3 one-byte extension / 4 two-byte extension; distinct = distinct canonical input"),
+              "non-trivial = well-formed call sequence (ops_wf); class by the widest option field: 1 no options / 2 short / 3 one-byte extension / 4 two-byte extension; distinct = distinct canonical input Also: every bit pattern of the one- and two-byte extension fields as value length and number gap; a third of the add_option calls go through the coap-message 0.2 / 0.3 traits; to_bytes() is compared with to_bytes_unlimited() (same bytes up to MAX_SIZE, an error above); options-only messages of exactly MAX_SIZE-1..MAX_SIZE+1 bytes; Reserved(b) and UnKnown class forms among the codes."),
         level_text=("Theorems over all packet states and all call sequences (no size bound): C01_encode_is_wire_image (to_bytes of every well-formed state is exactly the RFC 7252 section 3 image "
                     "of the message it denotes), C01_decode_inverts_wire_image (from_bytes inverts the image of every abstract message: versions 0-3, token 0-8, any ascending options up to 65804-byte values, payload), "
                     "C01_roundtrip, C01_api_states_wf / C01_api_roundtrip (every sequence of public API calls, in any order, builds such a state and round-trips), C01_api_denotes_spec (that state denotes exactly the last-writer-wins reading of the call sequence: header fields by their last setter, options as the insertion-ordered multiset with set_option replacing and clear_option removing, stably sorted by number). "
@@ -211,7 +211,7 @@ PROPS = {
         design_ref="DESIGN.md section 5, C02",
         rule=("suite 20: byte strings -> from_bytes -> to_bytes_unlimited; enumerated: all strings of <= 2 bytes (+ third byte) alone and after each of 3 (thorough 12) headers, every first byte x token shortfalls, "
               "every option header byte x every one-byte extension x boundary two-byte extensions x exact/short value, cumulative numbers around 65535, every prefix and 10 single-byte corruptions per position of "
-              "generated well-formed messages, biased random strings, values of 65535..65804 bytes; non-trivial = all cases, class 1 must-accept / 2 either / 3 must-reject per the reference parser; distinct = distinct input"),
+              "generated well-formed messages, biased random strings, values of 65535..65804 bytes; non-trivial = all cases, class 1 must-accept / 2 either / 3 must-reject per the reference parser; distinct = distinct input Also: the extension fields' bit patterns complete and cut one byte short; == / != on every parsed packet against three near copies (an extra option, one option number fewer, one payload byte more)."),
         level_text=("Theorem C02_decode_then_encode: for every byte string and every decoder policy, if from_bytes accepts then to_bytes_unlimited of the result succeeds and equals the input up to exactly the permitted "
                     "differences (trailing marker, content of a 0.00 message), stated as the boolean canonb which the run-time oracle also evaluates on implementation output; C02_injective as corollary. Unbounded: induction over the option list."),
         level_note="Hand-written models of from_bytes / to_bytes_internal tied to the Rust by differential execution on ~4*10^5 strings per build (dev and release). C02_model_passes_oracle: the model satisfies the suite's oracle on every byte string and policy.",
@@ -221,7 +221,7 @@ PROPS = {
         suites=[30],
         design_ref="DESIGN.md section 5, C03",
         rule=("suite 30: same generator as suite 20; verdict = agreement with the three-valued reference parser of WireSpec.v (must-accept with fields / either / must-reject) and no panic; "
-              "non-trivial = all cases, classes 1/2/3 = must-accept / either / must-reject; distinct = distinct input"),
+              "non-trivial = all cases, classes 1/2/3 = must-accept / either / must-reject; distinct = distinct input Also: the extension fields' bit patterns (every bit of the two-byte fields, all 256 one-byte values) complete and cut one byte short."),
         level_text=("Theorem C03_matches_reference: for every byte string and policy the index-based decoder model (each buf[i], slice and typed addition a potential Panic) returns Ok with exactly the grammar's fields on "
                     "must-accept inputs, Err on must-reject inputs, and Ok-or-(strict-policy)-Err on the 'either' inputs; C03_total (never Panic) follows. The reference parser is itself proved to accept every wire image "
                     "(C03_reference_accepts_wire_image, C03_accepts) and only wire images (C03_reference_accepts_only_wire_images). The reject classes of the property text one by one, for every policy: C03_rejects_short, C03_rejects_token_length, C03_rejects_truncated_token, "
@@ -236,7 +236,7 @@ PROPS = {
         design_ref="DESIGN.md section 5, C04",
         rule=("suite 40: (message, entry point, limit) triples; messages constructed to land on limit-2..limit+2 via payload, via option bytes and via both, limits {0,3,4,5,6,17,64,255,256,1279,1280,1281,64000,64001,random}, "
               "default entry point around MAX_SIZE (read from the build: 1280 / 64000 with udp) for every token length, 0.00 messages with unsent payloads, option values of 65803..131342 bytes, 160 packets whose header token-length nibble differs from the token's length (outside the exact-length clause; they exercise the copies), random messages x random limits; "
-              "classes 0 inconsistent header (only 'no crash' and agreement with the model) / 1 fits / 2 exactly at limit / 3 one over / 4 further over / 5 unlimited / 6 over-long value; non-trivial = API-buildable state; distinct = distinct input"),
+              "classes 0 inconsistent header (only 'no crash' and agreement with the model) / 1 fits / 2 exactly at limit / 3 one over / 4 further over / 5 unlimited / 6 over-long value; non-trivial = API-buildable state; distinct = distinct input Also: an option number left with an empty value list as highest key at limit-1..limit+1 and at MAX_SIZE; MessageClass::Reserved(0) with a payload around the limit."),
         level_text=("Theorem C04_limit_exact: for every well-formed state and every limit, to_bytes_internal returns the wire image iff wire_len <= limit and InvalidPacketLength otherwise; C04_length: the image has exactly wire_len bytes "
                     "(4 + token + options + marker/payload when sent); C04_oversize_value_refused; C04_no_panic; C04_model_passes_oracle (the model satisfies the suite-40 oracle for every packet state with an ordered option map -- values of any length --, entry point and limit). Unbounded over messages and limits. "
                     "Memory clause: C04_unsafe_sites_in_bounds -- the three unsafe blocks of to_bytes_internal are re-extracted from /repo/src/packet.rs on every run (tools/unsafe_sites.py -> coq/gen/UnsafeSites.v: reserve amount, ptr::copy offsets and lengths, set_len, as sums of length symbols) "
@@ -251,7 +251,7 @@ PROPS = {
         rule=("suite 70: the 4 versions x 4 types x token length 0..15 grid x 9 boundary message ids, every HandlingError code x type, "
               "every 16-bit message id (x all 16 version/type pairs in the thorough tier), random code/options/payload/diagnostic text; "
               "non-trivial = request the API can build (token < 16 bytes), class 1 no response prepared / 2 response, error not applicable / 3 response and error applied; "
-              "distinct = distinct canonical input"),
+              "distinct = distinct canonical input Also: No-Response (258) with twelve interest masks on all four message types; in every fourth case the prepared reply is turned into a separate response (Confirmable, own id, an ETag) before apply_from_error, which must leave all of that alone."),
         exhaustive=False,
         level_text=("Theorems C07_new / C07_new_fields / C07_new_none / C07_from_packet / C07_apply_error hold for every request packet "
                     "(any header byte, code, id, token < 16 bytes, options, payload) and every HandlingError, by unfolding and bit-field arithmetic; "
